@@ -236,3 +236,25 @@ Example C05_example :
   list_eqb Qc_eqb (snd (rfa_exp_fixed (pw_int 2) x y 8 1 Qc_half None)) (cf_exp_fixed (pw_int 2) x y 8 4 2) &&
   Qc_eqb (nthq 12 (cf_exp_fixed (pw_int 2) x y 8 4 2)) (qz 6) = true.
 Proof. vm_compute. reflexivity. Qed.
+
+(** ---- the rfa() methods, REGENERATED from rfa.py as glue terms (Gen/RfaGlue.v) and run by the interpreter of Model/GlueFun.v with the
+     leaves of Model/GlueLeaves.v (IntervalArray accessors, shape functions, oversampling / extension helpers, adaptive windows mean
+     their models), are the write-loop model of Model/Rfa.v ---- *)
+From TW Require Import Model.GlueLeaves Gen.RfaGlue Proofs.GlueRfaFixedProofs.
+Open Scope string_scope.
+(** the two fixed-window strategies: the nested write loops, as regenerated, are the model's folds (for the window sizes the
+    constructors store, cf. C05_generated_window_a / _half_window / _linear_part) *)
+Theorem C05_glue_rfa_linear_fixed : forall x y n alpha a, (2 <= n)%nat -> (2 <= length x)%nat ->
+  let A := window_a n alpha a in
+  outcome_arr_pair (call_meth (rfa_callf (fun t => t) (fun t => t)) (rfa_methf (fun t => t) x y n) no_apply no_pow rfa_methods
+     "LinearFixedRFA.rfa" (rfa_attrs x y n A (half_window A) 0 0) []) = Ok (rfa_linear_fixed x y n alpha a).
+Proof. exact glue_rfa_linear_fixed. Qed.
+Print Assumptions C05_glue_rfa_linear_fixed.
+
+Theorem C05_glue_rfa_exp_fixed : forall pw x y n alpha beta a, (2 <= n)%nat -> (2 <= length x)%nat ->
+  let A := window_a n alpha a in
+  outcome_arr_pair (call_meth (rfa_callf pw (fun t => t)) (rfa_methf (fun t => t) x y n) no_apply no_pow rfa_methods
+     "ExpFixedRFA.rfa" (rfa_attrs x y n A (half_window A) (lin_part beta (half_window A)) beta) []) = Ok (rfa_exp_fixed pw x y n alpha beta a).
+Proof. exact glue_rfa_exp_fixed. Qed.
+Print Assumptions C05_glue_rfa_exp_fixed.
+Close Scope string_scope.
